@@ -68,6 +68,10 @@ struct S {
     admin0: u64,
     last_valid: Option<Option<u64>>,
     finding: Option<(String, String)>,
+    /// the harness impersonated the minter CONTRACT's address in a message to the collection (impossible on chain; used in
+    /// the labelled `spoof` cases only, to validate the model's collection-side branches). The two monitors that speak
+    /// about "the minter" are meaningless from then on and are switched off for the rest of that case.
+    spoofed: bool,
 }
 
 impl S {
@@ -85,6 +89,7 @@ impl S {
             admin0: 0,
             last_valid: None,
             finding: None,
+            spoofed: false,
         }
     }
     fn world(&mut self) -> &mut World {
@@ -241,6 +246,9 @@ impl Sut for S {
             "coll_trading" | "coll_creator" | "coll_freeze" | "coll_own" => match need(&self.coll) {
                 None => false,
                 Some(c) => {
+                    if sender == self.minter {
+                        self.spoofed = true;
+                    }
                     let ck = coll_kind(self.coll_idx);
                     let msg = match op.as_str() {
                         "coll_trading" => json!({"update_start_trading_time": jopt_time(kv_opt_u64(line, "t").unwrap())}),
@@ -317,13 +325,13 @@ impl Sut for S {
             }
             self.last_valid = Some(req);
         }
-        if ok && op == "coll_trading" {
+        if ok && op == "coll_trading" && !self.spoofed {
             let snd = kv_u64(line, "sender").unwrap();
             if Some(addr(snd)) != self.minter {
                 self.flag(format!("{}/direct-update/non-minter-accepted", COLL_NAMES[self.coll_idx as usize]), format!("the collection accepted UpdateStartTradingTime from {snd}, not its minter, on `{line}`"));
             }
         }
-        if after.exists && self.last_valid != Some(after.tr) {
+        if after.exists && !self.spoofed && self.last_valid != Some(after.tr) {
             self.flag(
                 format!("{}/visible/not-validated", COLL_NAMES[self.coll_idx as usize]),
                 format!("CollectionInfo shows trading time {:?} but the last minter-validated write was {:?} (after `{line}`)", after.tr, self.last_valid),
@@ -562,7 +570,10 @@ impl Gen<'_> {
                 let now = self.sh.now;
                 let mut v = vec![now.saturating_sub(1), now, now + self.rng.range(1, 40) * DAY];
                 if let Some(st) = self.sh.start {
-                    v.extend([st.saturating_sub(1), st, st + 1]);
+                    v.extend([st.saturating_sub(1), st, st + 1, st + self.rng.range(1, 40) * DAY]);
+                }
+                if let Some(e) = self.sh.end {
+                    v.extend([e.saturating_sub(1), e + 1, e + DAY]);
                 }
                 let t = *self.rng.pick(&v);
                 let class = format!("upd_end:{}", if Some(t) < self.sh.start { "before-start" } else { "fine" });
@@ -678,7 +689,7 @@ fn main() {
         ses.finish(&mut sut);
     }
     let rng = ses.rng.fork();
-    let reps = ses.scale(2, 40);
+    let reps = ses.scale(20, 300);
     let n_ops = ses.scale(28, 40);
     let offsets: [u64; 8] = [0, 1, 59, 3600, 86_400, 604_800, 31_536_000, 999_999_937];
     let mut g_rng = rng;
@@ -747,6 +758,45 @@ fn main() {
                 g.step(format!("coll_own sender={CREATOR2} act=0 new={CREATOR2}"), "coll_own:0".into());
                 g.step(format!("coll_own sender={CREATOR2} act=1 new={CREATOR2}"), "coll_own:1".into());
                 g.step(format!("coll_trading sender={CREATOR2} t={}", t + 9), "coll_trading:other".into());
+                g_rng = g.rng.fork();
+                ses.end_case();
+            }
+
+            // ---------------- 1b. model validation of the collection-side branches: the harness impersonates the minter
+            // contract's address (impossible on chain; monitors about "the minter" are off in these cases)
+            {
+                let now0 = GENESIS + 9 * DAY + g_rng.below(1000);
+                let off0 = offsets[g_rng.below(offsets.len() as u64) as usize];
+                let header = format!("case spoof kind={} coll={ci} now={now0} offset={off0}", kind.idx());
+                ses.begin_case(&mut sut, &header);
+                let sh = Shadow { now: now0, off: off0, exists: false, tr: None, start: None, end: None, creator: CREATOR };
+                let mut g = Gen { ses: &mut ses, sut: &mut sut, rng: g_rng.fork(), kind, ci, sh };
+                let start = now0 + DAY;
+                let end = if kind.is_open_edition() { Some(start + DAY) } else { None };
+                assert!(g.create(start, end, None, "spoof"), "spoof create failed");
+                let mid = g.sut.expect_minter;
+                let t = g.sh.now + 77;
+                g.step(format!("coll_trading sender={mid} t={t}"), "spoof:coll_trading:minter".into());
+                g.step(format!("coll_trading sender={mid} t=-"), "spoof:coll_trading:minter-none".into());
+                g.step(format!("coll_own sender={STRANGER} act=1 new={STRANGER}"), "spoof:accept-nothing-pending".into());
+                g.step(format!("coll_own sender={mid} act=0 new={STRANGER}"), "spoof:transfer".into());
+                g.step(format!("coll_own sender={CREATOR} act=1 new={CREATOR}"), "spoof:accept-wrong".into());
+                g.upd_trading(CREATOR, Some(t), 0); // minter still owner: fine
+                if g.rng.chance(1, 2) {
+                    g.step(format!("coll_own sender={STRANGER} act=1 new={STRANGER}"), "spoof:accept".into());
+                    g.upd_trading(CREATOR, Some(t + 1), 0); // the minter is no longer the owner: its sub-message is refused
+                    g.step(format!("coll_trading sender={mid} t={t}"), "spoof:coll_trading:ex-minter".into());
+                    g.step(format!("coll_trading sender={STRANGER} t={}", t + 2), "spoof:coll_trading:new-owner".into());
+                    g.step(format!("coll_own sender={STRANGER} act=2 new={STRANGER}"), "spoof:renounce".into());
+                    g.step(format!("coll_trading sender={STRANGER} t={}", t + 3), "spoof:coll_trading:renounced".into());
+                } else {
+                    g.step(format!("coll_own sender={mid} act=2 new={mid}"), "spoof:renounce-by-minter".into());
+                    g.step(format!("coll_own sender={STRANGER} act=1 new={STRANGER}"), "spoof:accept-after-renounce".into());
+                    g.upd_trading(CREATOR, Some(t + 1), 0);
+                }
+                for _ in 0..6 {
+                    g.random_op();
+                }
                 g_rng = g.rng.fork();
                 ses.end_case();
             }
